@@ -3,6 +3,7 @@
 package main
 
 import (
+	"sync"
 	"time"
 	"encoding/base64"
 	"encoding/json"
@@ -101,8 +102,77 @@ func loginCookieVerifier(s *sut, v string) string {
 	return lc.CodeVerifier
 }
 
+// c02Burst: many callbacks of DIFFERENT browsers at the same moment on one replica. Every token request the provider sees must carry the code, the verifier
+// and the redirect URI of ONE attempt (those bound in that browser's cookie), every code is redeemed once, every browser ends up with its own session.
+func c02Burst(c *ctx) {
+	rounds := 3
+	if c.thorough() {
+		rounds = 12
+	}
+	for round := 0; round < rounds; round++ {
+		s := newSut(sutOpts{sidRequired: true, ingresses: []string{"http://wonderwall", "http://other.example"}})
+		rp := s.replica("A")
+		n := 24
+		atts := make([]*attempt, n)
+		bases := make([]string, n)
+		codeOf, verOf := map[string]int{}, map[string]int{}
+		for i := range atts {
+			bases[i] = "http://wonderwall"
+			if i%3 == 2 {
+				bases[i] = "http://other.example" // another redirect URI is bound in this attempt's cookie
+			}
+			atts[i] = s.newAttempt(rp, bases[i])
+			codeOf[atts[i].code] = i
+			verOf[loginCookieVerifier(s, atts[i].cookie)] = i
+		}
+		nc := s.idp.callCount()
+		nav := http.Header{"Sec-Fetch-Mode": {"navigate"}, "Sec-Fetch-Dest": {"document"}}
+		statuses := make([]int, n)
+		var wg sync.WaitGroup
+		start := make(chan struct{})
+		for i := range atts {
+			wg.Add(1)
+			go func() {
+				defer wg.Done()
+				<-start
+				r := atts[i].b.do(rp, "GET", bases[i]+"/oauth2/callback?"+url.Values{"code": {atts[i].code}, "state": {atts[i].state}}.Encode(), nav)
+				statuses[i] = r.Status
+			}()
+		}
+		close(start)
+		wg.Wait()
+		mixed, dup, sessions, redirMixed := 0, 0, 0, 0
+		seen := map[string]int{}
+		for _, cl := range s.idp.callsSince(nc) {
+			if cl.Grant != "authorization_code" {
+				continue
+			}
+			ci, okc := codeOf[cl.Code]
+			vi, okv := verOf[cl.Verifier]
+			if !okc || !okv || ci != vi {
+				mixed++
+			} else if !strings.HasPrefix(cl.RedirectURI, bases[ci]+"/") {
+				redirMixed++
+			}
+			seen[cl.Code]++
+			if seen[cl.Code] == 2 {
+				dup++
+			}
+		}
+		for i := range atts {
+			if atts[i].b.get(cookie.Session) != nil {
+				sessions++
+			}
+		}
+		c.count("burst")
+		c.emit("cbburst", "n", n, "mixed", mixed, "redirmixed", redirMixed, "dup", dup, "sessions", sessions, "redeemed", len(seen))
+		s.close()
+	}
+}
+
 func runC02(c *ctx) {
 	c02Race(c)
+	c02Burst(c)
 	r := c.rng
 	otherKey := crypto.NewCrypter([]byte("0123456789abcdef0123456789abcdef"))
 	kinds := []string{"own", "absent", "notbase64", "truncated", "bitflip", "otherkey", "otherattempt", "logoutcipher", "sessioncipher", "plaintext", "empty"}
